@@ -310,7 +310,7 @@ def write_evidence(mod, prop, tier, seed, m, t0, violations, known_hits, note=No
     if note:
         ev["coverage"]["note"] = note
     # evidence describes runs against /repo itself; runs against a scratch copy (tools/, VERIF_REPO) go elsewhere
-    d = os.path.join(VERIF_DIR, "out", "evidence-scratch") if os.environ.get("VERIF_REPO") else os.path.join(VERIF_DIR, "evidence")
+    d = os.path.join(VERIF_DIR, "out", "evidence-scratch") if os.environ.get("VERIF_REPO") or os.environ.get("VERIF_EVIDENCE_SCRATCH") else os.path.join(VERIF_DIR, "evidence")
     os.makedirs(d, exist_ok=True)
     tmp = os.path.join(d, f".{prop}.json.tmp")
     with open(tmp, "w") as f:
